@@ -1630,6 +1630,138 @@ def _eof_test(cond, truth, bytevars):
     return False
 
 
+def _c_after(body, stmt):
+    """the statements executed, in this order, once `stmt` has been left normally: its later siblings in the block it stands in, then
+    those of the enclosing blocks (plain blocks and try blocks only; None when stmt is nested in anything else)"""
+    par = _c_parents(body)
+    out, x = [], stmt
+    while id(x) in par:
+        p = par[id(x)]
+        kids = [y for y in (p.get("inner") or []) if isinstance(y, dict) and y.get("kind")]
+        if p.get("kind") == "CompoundStmt":
+            out.extend(kids[[id(y) for y in kids].index(id(x)) + 1:])
+        elif not (p.get("kind") == "CXXTryStmt" and kids and kids[0] is x):
+            return None
+        x = p
+    return out
+
+
+def _c_lin(n, env, consts):
+    """(a, b) when the integer expression is a * <the counter when the scan ended> + b with constants a, b: literals, sizeof, named
+    constants, the variables of env (their value at this point), + - and products with a constant; None for anything else"""
+    n = cfront.strip(n)
+    k = n.get("kind")
+    inner = [y for y in (n.get("inner") or []) if isinstance(y, dict) and y.get("kind")]
+    if k == "DeclRefExpr":
+        nm = (n.get("referencedDecl") or {}).get("name")
+        if nm in env:
+            return env[nm]
+    if k == "BinaryOperator" and n.get("opcode") in ("+", "-", "*") and len(inner) == 2:
+        a, b = _c_lin(inner[0], env, consts), _c_lin(inner[1], env, consts)
+        if a is None or b is None:
+            return None
+        if n["opcode"] == "*":
+            if a[0] and b[0]:
+                return None
+            return (a[0] * b[1] + b[0] * a[1], a[1] * b[1])
+        sg = 1 if n["opcode"] == "+" else -1
+        return (a[0] + sg * b[0], a[1] + sg * b[1])
+    if k == "UnaryOperator" and n.get("opcode") in ("+", "-") and inner:
+        a = _c_lin(inner[0], env, consts)
+        return None if a is None else (a if n["opcode"] == "+" else (-a[0], -a[1]))
+    if any((x.get("referencedDecl") or {}).get("name") in env for x in cfront.walk(n) if x.get("kind") == "DeclRefExpr"):
+        return None
+    if k == "UnaryExprOrTypeTraitExpr" and n.get("name", "sizeof") == "sizeof" and not inner:
+        sz = _C_SIZEOF.get(" ".join(w for w in ((n.get("argType") or {}).get("qualType") or "").split() if w not in ("const", "volatile")))
+        return None if sz is None else (0, sz)
+    c = c_const_int(n, consts)
+    return None if c is None else (0, c)
+
+
+def header_bytes_reread(rd, body, loop, cnt):
+    """(K, text): the one fread that follows the scanning loop takes <bytes counted by the loop> + K bytes.  The statements that
+    follow the loop are read in execution order, keeping for the counter and for every variable computed from it its value as
+    counter-at-loop-exit + constant: `count += 1; fread(p, 1, count, f)`, `count++`, `const size_t n = 1 + count; fread(p, 1, n, f)`,
+    `fread(p, 1, count + 1, f)`, `fread(p, count + 1, 1, f)` are the same length.  A variable stored to under a branch or in a loop,
+    or whose address is taken, has no known value from there on.  K is None when the length is not of that form."""
+    seq = _c_after(body, loop)
+    if seq is None:
+        return None, "the scanning loop is nested in a branch or loop"
+    consts = c_inits(rd)
+    env = {cnt: (1, 0)}
+    par = _c_parents(body)
+
+    def forget(st, but=()):
+        for nm, x, kind in _c_writes(st):
+            if id(x) not in but:
+                env.pop(nm, None)
+        for x in cfront.walk(st):
+            if x.get("kind") == "UnaryOperator" and x.get("opcode") == "&" and _c_kids(x):
+                t = cfront.strip(_c_kids(x)[0])
+                if t.get("kind") == "DeclRefExpr":
+                    env.pop((t.get("referencedDecl") or {}).get("name"), None)
+
+    for st in seq:
+        frs = [c for c in cfront.calls_in(st) if cfront.callee_name(c) == "fread"]
+        if frs:
+            # executed exactly once: not under a loop, not in an arm of a branch (the condition of an if is fine)
+            x = frs[0]
+            while x is not st:
+                p = par[id(x)]
+                pk = p.get("kind")
+                if pk in _C_LOOPS or pk in ("ConditionalOperator", "SwitchStmt", "LambdaExpr") or (pk == "BinaryOperator" and p.get("opcode") in ("&&", "||") and _c_kids(p)[0] is not x) \
+                        or (pk == "IfStmt" and (p.get("hasInit") or p.get("hasVar") or _c_kids(p)[0] is not x)):
+                    return None, "the fread after the scanning loop is conditional"
+                x = p
+            if len(frs) != 1 or any(nm in env for nm, x, kind in _c_writes(st) if not (kind == "decl" and id(frs[0]) in {id(y) for y in cfront.walk(x)})):
+                return None, "the statement of the fread also stores to the counter"
+            a = cfront.call_args(frs[0])
+            if len(a) != 4:
+                return None, cfront.render(frs[0])
+            size, n = _c_lin(a[1], env, consts), _c_lin(a[2], env, consts)
+            ln = n if size == (0, 1) else (size if n == (0, 1) else None)
+            if ln is None or ln[0] != 1:
+                return None, "%s with %s" % (cfront.render(frs[0]), {k: "%s*n%+d" % v for k, v in env.items()})
+            return ln[1], cfront.render(frs[0])
+        top = cfront.strip(st)
+        k = top.get("kind")
+        kids = _c_kids(top)
+        if k == "DeclStmt":
+            for d in kids:
+                if d.get("kind") == "VarDecl" and d.get("name"):
+                    init = _c_kids(d)
+                    inner_writes = [w for w in _c_writes(d) if w[1] is not d]
+                    v = _c_lin(init[-1], env, consts) if init and not inner_writes else None
+                    forget(d, but=(id(d),))
+                    env.pop(d["name"], None)
+                    if v is not None and v[0]:
+                        env[d["name"]] = v
+            continue
+        tgt = cfront.strip(kids[0]) if kids else {}
+        nm = (tgt.get("referencedDecl") or {}).get("name") if tgt.get("kind") == "DeclRefExpr" else None
+        simple = nm is not None and len(_c_writes(top)) == 1
+        if simple and k == "UnaryOperator" and top.get("opcode") in ("++", "--"):
+            if nm in env:
+                env[nm] = (env[nm][0], env[nm][1] + (1 if top["opcode"] == "++" else -1))
+            continue
+        if simple and k == "CompoundAssignOperator" and top.get("opcode") in ("+=", "-=") and len(kids) == 2:
+            v = _c_lin(kids[1], env, consts)
+            if nm in env and v is not None:
+                sg = 1 if top["opcode"] == "+=" else -1
+                env[nm] = (env[nm][0] + sg * v[0], env[nm][1] + sg * v[1])
+            else:
+                env.pop(nm, None)
+            continue
+        if simple and k == "BinaryOperator" and top.get("opcode") == "=" and len(kids) == 2:
+            v = _c_lin(kids[1], env, consts)
+            env.pop(nm, None)
+            if v is not None and v[0]:
+                env[nm] = v
+            continue
+        forget(st)
+    return None, "no fread follows the scanning loop"
+
+
 def reader_model(rd):
     """What the C++ header reader does with the byte stream, in either of the two recognised idioms:
        (a) a fixed window shifted by one byte per fgetc and compared with strncmp/memcmp against a literal, a byte counter,
@@ -1676,26 +1808,17 @@ def reader_model(rd):
         shifts = [cfront.render(x) for x in cfront.walk(loop) if x.get("kind") == "BinaryOperator" and x.get("opcode") == "=" and cfront.render(x["inner"][0]).startswith(buf + "[")]
         byte = [k for k, v in inits.items() if cfront.callee_name(cfront.strip(v)) == "fgetc"]
         want = ["(%s[%d] = %s[%d])" % (buf, i, buf, i + 1) for i in range(width - 1)] + ["(%s[%d] = %s)" % (buf, width - 1, byte[0] if byte else "c")]
-        # bytes counted after the loop
-        skips = []
+        # the byte counter: the one variable stepped by one per pass of the scanning loop
         cnt = None
-        for x in cfront.walk(body):
-            if id(x) in inloop or id(x) in inlater:
-                continue
-            if x.get("kind") == "CompoundAssignOperator" and x.get("opcode") == "+=":
-                skips.append((cfront.render(x["inner"][0]), cfront.render(x["inner"][1])))
-            elif x.get("kind") == "UnaryOperator" and x.get("opcode") == "++":
-                skips.append((cfront.render(x["inner"][0]), "1"))
         incs = [cfront.render(x["inner"][0]) for x in cfront.walk(loop) if x.get("kind") == "UnaryOperator" and x.get("opcode") == "++"] + \
                [cfront.render(x["inner"][0]) for x in cfront.walk(loop) if x.get("kind") == "CompoundAssignOperator" and x.get("opcode") == "+=" and cfront.render(x["inner"][1]) == "1"]
         if len(incs) == 1:
             cnt = incs[0]
-        mine = [v for nm, v in skips if nm == cnt]
-        K = sum(int(v) for v in mine) if mine and all(v.isdigit() for v in mine) else None
-        fr = [cfront.render(c) for c in cfront.calls_in(body) if id(c) not in inloop and cfront.callee_name(c) == "fread"]
-        reread = len(fr) == 1 and cnt is not None and ", 1, %s, " % cnt in fr[0]
-        if not reread:
-            K = None
+        # bytes taken after the loop: the header is read again from the start by one fread of <counter> + K bytes
+        fr = [c for c in cfront.calls_in(body) if id(c) not in inloop and cfront.callee_name(c) == "fread"]
+        K, reread = None, "one byte counter and one fread after the loop not found"
+        if len(fr) == 1 and cnt is not None:
+            K, reread = header_bytes_reread(rd, body, loop, cnt)
         # a later loop that advances the byte counter: the header length then depends on the bytes after the sentinel
         varskip = None
         for l in later:
@@ -1706,7 +1829,7 @@ def reader_model(rd):
                 dep = _loop_depends_on_bytes(rd, l)
                 if dep and varskip is None:
                     varskip = (l.get("line"), "`%s` is advanced inside a loop that runs %s" % (cnt, dep))
-        return dict(S=S, width=width, K=K, varskip=varskip, window=(shifts == want, str(shifts)), idiom="shifted window + strncmp", line=cmpc[0].get("line"))
+        return dict(S=S, width=width, K=K, varskip=varskip, window=(shifts == want, str(shifts)), idiom="shifted window + strncmp; " + reread, line=cmpc[0].get("line"))
     if len(cmps) == 1 and not cmpc:
         c = cmps[0]
         base = cfront.render(cfront.strip(c["inner"][0])["inner"][0])
@@ -2227,6 +2350,32 @@ def size_line(chk, repo, cfun):
 BINARY = {"self.is_ascii": False, "self.delim": None}
 
 
+# numpy callables that return a new array of a given shape and dtype, with their positional parameters
+_FRESH_ARRAY = {"numpy.zeros": ("shape", "dtype", "order"), "numpy.empty": ("shape", "dtype", "order"), "numpy.ones": ("shape", "dtype", "order"),
+                "numpy.full": ("shape", "fill_value", "dtype", "order"), "numpy.ndarray": ("shape", "dtype")}
+
+
+def _fresh_array(t):
+    """(term, {parameter: argument term}) of a call that allocates a new array, positional and keyword arguments bound to the
+    parameter names; '?' is set when an argument cannot be bound (* / **, unknown keyword: numpy.ndarray(buffer=...) is not a new
+    array); None when the term is not such a call"""
+    if not (isinstance(t, tuple) and len(t) >= 4 and t[0] == "call" and t[1] in _FRESH_ARRAY):
+        return None
+    names = _FRESH_ARRAY[t[1]]
+    a = {}
+    for i, v in enumerate(t[2]):
+        if i >= len(names) or (isinstance(v, tuple) and v and v[0] == "star"):
+            a["?"] = True
+        else:
+            a[names[i]] = v
+    for k, v in t[3]:
+        if k in names and k not in a:
+            a[k] = v
+        elif k != "like" or v != NONE:
+            a["?"] = True
+    return t, a
+
+
 def payload(chk, repo, cfun):
     R = "R01.3"
     eng = effects.Effects(repo, c_summaries())
@@ -2244,20 +2393,36 @@ def payload(chk, repo, cfun):
     C15._run_with_init(an, init)
     data = ("param", fi.params[1]) if len(fi.params) > 1 else None
     wargs = [e.ev(c.args[0], n) for e, n, c in calls if call_name(c) == "Write" and c.args]
+    _LAYOUT_KW = ("order", "copy", "subok", "requirements")
+
     def _layout_only(t):
-        """peel wrappers that keep every row's bytes, the dtype and the byte order: numpy.ascontiguousarray / require / array(copy) / .copy()"""
+        """peel wrappers that keep every row's bytes, the dtype and the byte order: numpy.ascontiguousarray / asarray / asanyarray /
+        require / array / copy of one positional argument (the second positional parameter of all of them is a dtype) with no
+        keyword other than order= / copy= / subok= / requirements=, and .copy()"""
         while isinstance(t, tuple) and t:
-            if t[0] == "call" and len(t) >= 3 and str(t[1]).split(".")[-1] in ("ascontiguousarray", "require", "copy") and t[2] and len(t[2]) >= 1 \
-                    and not any(k in ("dtype",) for k, _ in (t[3] if len(t) > 3 and t[3] else ())):
+            if t[0] == "call" and len(t) >= 3 and str(t[1]).startswith("numpy.") and str(t[1]).split(".")[-1] in ("ascontiguousarray", "asarray", "asanyarray", "require", "array", "copy") \
+                    and t[2] and len(t[2]) == 1 and t[2][0][0] != "star" and all(k in _LAYOUT_KW for k, _ in (t[3] if len(t) > 3 and t[3] else ())):
                 t = t[2][0]
                 continue
-            if t[0] == "meth" and t[2] == "copy":
+            if t[0] == "meth" and t[2] == "copy" and all(k == "order" for k, _ in (t[4] if len(t) > 4 and t[4] else ())) and \
+                    (not t[3] or (len(t[3]) == 1 and is_lit(t[3][0], str))):
                 t = t[1]
                 continue
             break
         return t
+
+    def _same_array(t):
+        """the caller's array itself or a view of it that changes only the Python class: data, data.view(), data.view(numpy.ndarray),
+        data.view(type=numpy.ndarray) (ndarray.view(dtype_or_type=None, type=None): a class in either position selects the class of the
+        view and leaves dtype and bytes alone; a dtype would re-interpret the bytes)"""
+        if t == data:
+            return True
+        if isinstance(t, tuple) and len(t) == 5 and t[0] == "meth" and t[1] == data and t[2] == "view":
+            given = list(t[3]) + [v for k, v in t[4] if k == "type"]
+            return all(k == "type" for k, _ in t[4]) and len(given) <= 1 and all(v == ("glob", "numpy.ndarray") for v in given)
+        return False
     w0 = _layout_only(wargs[0]) if len(wargs) == 1 else None
-    ok = None if len(wargs) != 1 else w0 in (data, ("meth", data, "view", (("glob", "numpy.ndarray"),), ()))
+    ok = None if len(wargs) != 1 else _same_array(w0)
     chk.ob(R, "Recfile.write[binary]::writes-view-of-callers-array", ok, fi.where(), "Records::Write receives data.view(ndarray): the caller's bytes, dtype and byte order as they are (%s)" % [show(t) for t in wargs])
     # C++ Write
     w = cfun["Records::Write"]
@@ -2373,8 +2538,27 @@ def payload(chk, repo, cfun):
         f = repo.func(q)
         chk.analysed_unit(q)
         fev = Ev(repo, f)
-        z = [(e.ev(c, n), kwterm(e, n, c, "dtype")) for e, n, c in find_calls(fev, named("zeros", "empty"), follow=False)]
-        okz = len(z) == 1 and z[0][0][0] == "call" and z[0][0][1] in ("numpy.zeros", "numpy.empty") and len(z[0][0][2]) == 1 and z[0][1] is not None and mentions_term(z[0][1], filedtype)
+        # the allocation, however its arguments are passed: zeros(n, dtype=d) = zeros((n,), d) = zeros(shape=n, dtype=d) = empty(...) =
+        # ndarray(n, d) = full(n, v, d)
+        def fits(fa):
+            t, a = fa
+            shape, dt = a.get("shape"), a.get("dtype")
+            if a.get("?") or shape is None or shape[0] == "star":
+                return None                     # arguments handed over with * / **, or a keyword this rule does not know
+            one_d = shape[0] not in ("tuple", "list") or (len(shape[1]) == 1 and shape[1][0][0] != "star")
+            return bool(one_d and dt is not None and mentions_term(dt, filedtype))
+        # the buffer is what the C++ reader is handed as its first argument (followed through the locals that carry it); where that
+        # is not an allocation this rule knows, the allocations of the function are looked at instead
+        bufs = [e.ev(c.args[0], n) for e, n, c in find_calls(fev, named("read_binary_slice", "read_columns", "read_binary_columns"), follow=False) if c.args]
+        alts = [x for b in bufs for x in (b[1] if b[0] == "phi" else (b,))]
+        z = [_fresh_array(x) for x in alts]
+        if not z or None in z:
+            z = [a for a in (_fresh_array(e.ev(c, n)) for e, n, c in find_calls(fev, named(*sorted({q.split(".")[-1] for q in _FRESH_ARRAY})), follow=False)) if a is not None]
+            verdicts = [fits(a) for a in z]
+            okz = None if (not z or None in verdicts or (len(z) > 1 and False in verdicts)) else all(verdicts)
+        else:
+            verdicts = [fits(a) for a in z]
+            okz = False if False in verdicts else (None if None in verdicts else True)
         chk.ob(R, f.name + "::zeroed-buffer-of-file-dtype", okz, f.where(), "rows are read into a freshly allocated array of n rows, zeros(n, dtype=<file dtype / its column subset>) (or numpy.empty: the initial content does not matter to rows the reader fills) (%s)" % [show(t) for t, _ in z])
     op = repo.func("esutil.recfile.Util.Recfile.open")
     oev = Ev(repo, op, flags=BINARY)
